@@ -59,9 +59,12 @@ def main(argv):
     c = Check("C11", argv)
     c.proofs()
     c.trusted_base([
-        "the ugorji codec (JSON reader into map[string]interface{}, msgpack writer/reader) and strconv.FormatFloat are oracles: "
+        "the ugorji JSON reader (into map[string]interface{}) and strconv.FormatFloat are oracles: "
         "every case checks that the Go tree read back from the msgpack bytes equals the one read from the JSON text, and that "
         "floats come back with the same bits",
+        "the ugorji msgpack writer is MODELLED (Model/Msgpack.v mp_bytes, compared byte for byte with the real (msgpack v) on every case); "
+        "its reader is not: the real bytes are read by the extracted independent reader mp_decode (theorem msgpack_bytes_read_back) and "
+        "(unmsgpack ..) is compared with sexp_of_go of that tree",
         "encoding/json is the 'standard decoder' of the property text (token stream, numbers as text, member order kept)",
         "Go strings reach the model as utf8.DecodeRuneInString delivers them (one '!' per byte that is not UTF-8)",
         "ugorji's handling of objects with two members of the same name is not modelled (only reachable through the listed finding or string/symbol keys of the same text)",
@@ -70,7 +73,8 @@ def main(argv):
     ])
     c.assumptions += [
         "Section Codec: pf (float_token sci bits) = bits for finite floats (strconv shortest formatting read back by the decoder's float parser gives the same float64)",
-        "Section Msgpack: dec (enc t) = Some t (the msgpack codec is the identity on Go trees)",
+        "Section Msgpack (theorem msgpack_roundtrip only): dec (enc t) = Some t (the msgpack codec is the identity on Go trees); "
+        "proved for the byte-level model as msgpack_document_read_back, not yet connected to msgpack_roundtrip",
     ]
     cases = c.harness("c11")
     prop_fail, corr_fail, known = [], [], 0
